@@ -24,7 +24,7 @@ def prog_term(c):
 
 
 def run(ctx):
-    n = 60 if ctx.thorough() else 22
+    n = 60 if ctx.thorough() else 14
     proof_ok, detail = True, {}
     ok, out = ctx.regen(["clientsub"])
     if not ok:
@@ -55,7 +55,7 @@ def run(ctx):
         files = [os.path.join(vf.VERIF, "corpus", "C27", "row20_triple_cancel.json")]
         wit = os.path.join(ctx.work, "lost_resume_witness.json")
         json.dump({"case": {"id": 0, "op": "c27", "l": [0, 1, 1, 1, 0, 2], "p": {"seq": 1, "delay1": 0, "delay2": 25}, "s": {"script": "O"}}}, open(wit, "w"))
-        jobs = [[h, "c27", "-replay", f] for f in files] + [[h, "c27", "-replay", wit]] * 10
+        jobs = [[h, "c27", "-replay", f] for f in files] + [[h, "c27", "-replay", wit]] * 8
         import concurrent.futures
         with concurrent.futures.ThreadPoolExecutor(max_workers=6) as ex:
             for rc, out in ex.map(lambda j: vf.sh(j, timeout=300, env=vf.GOENV), jobs):
@@ -120,7 +120,7 @@ def run(ctx):
     ctx.coverage.update({
         "evaluations": len(obs),
         "distinct_nontrivial": len(progs),
-        "rule": "programs: Subscribe 1 sequentially, then 2..4 concurrent operations drawn from {Subscribe, ForgetSubscription, Cancel} x ids {1,2} with seeded start delays, publish scripts of 0..3 answers (first answer held until the calls are issued); plus the corpus witness of the fixed deadlock and 10 runs of the lost-resume witness; one child process per program; distinct = distinct (operation list, script)",
+        "rule": "programs: Subscribe 1 sequentially, then 2..4 concurrent operations drawn from {Subscribe, ForgetSubscription, Cancel} x ids {1,2} with seeded start delays, publish scripts of 0..3 answers (first answer held until the calls are issued); plus the corpus witness of the fixed deadlock and 8 runs of the lost-resume witness; one child process per program; distinct = distinct (operation list, script)",
         "samples": [{k: o.get(k) for k in ("case", "done", "outstanding", "subs", "subs_blocked")} for o in usable[:3] + usable[-2:]],
         "terminal_classes": dict(collections.Counter("done=%s outstanding=%s subs=%d" % (all(o["done"]), o["outstanding"], len(o["subs"])) for o in usable)),
         "traces_validated_against_impl": len(usable),
